@@ -27,7 +27,8 @@ MAXTASKS = 1
 
 def plan(tier, seed):
     names = sani.group_names(tier)
-    shards = [("asan", g, tier) for g in names] + [("diff", g, tier) for g in names] + [("stray", g, tier) for g in names]
+    shards = [("asan", g, tier) for g in names] + [("diff", g, tier) for g in names] + [("stray", g, tier) for g in names] + \
+        [("team", g, tier) for g in names]
     k = seed % len(shards)
     return shards[k:] + shards[:k]
 
@@ -169,8 +170,51 @@ def _run_stray(desc):
     return sh
 
 
+def _run_team(desc):
+    """the kernels with OpenMP regions on the vrt runtime with teams of 2 and 3 threads while the runtime reports a LARGER maximum (what
+    libgomp does under OMP_THREAD_LIMIT, OMP_DYNAMIC or inside another region): the promised outputs are fully written - the same for two
+    different fills of the output arrays - and equal to those of a single thread"""
+    _, group, tier = desc
+    from vt.vrt import VRT, team_outputs
+    sh = Shard()
+    sani.NP_["NPROPERTY"], sani.NP_["NPROPERTY2D"] = nprops()
+    V = VRT()
+    seen = {}
+
+    def same(a, b):
+        return a[0] == b[0] and all(x.shape == y.shape and np.array_equal(x.view(np.uint8), y.view(np.uint8)) for x, y in zip(a[1], b[1]))
+    for idx, call in enumerate(sani.calls_of(group, tier)):
+        k = call.kernel
+        if seen.get(k, 0) >= (25 if tier == "quick" else 200) or any(a[0] == "a" and a[1].nbytes > 200_000 for a in call.args):
+            continue
+        seen[k] = seen.get(k, 0) + 1
+        ref = team_outputs(V, call, 1, 0, sani.POISON[0])
+        if ref is None:
+            continue
+        case = {"kind": "team", "group": group, "tier": tier, "index": idx, "call": call.describe()[:300]}
+        for T, mx in ((2, 3), (2, 5), (3, 4)):
+            a_ = team_outputs(V, call, T, mx, sani.POISON[0])
+            b_ = team_outputs(V, call, T, mx, sani.POISON[1])
+            if a_[2] != ref[2]:
+                sh.violation("team-smaller-than-reported-maximum:does-not-finish:%s" % k, dict(case, team=T, reported_max=mx), {"status": a_[2]})
+                break
+            if not same(a_, b_):
+                sh.violation("team-smaller-than-reported-maximum:output-not-fully-written:%s" % k, dict(case, team=T, reported_max=mx),
+                             {"what": "promised outputs differ for two fills of the output arrays"})
+                break
+            if not same_loose(ref, a_):
+                sh.violation("team-smaller-than-reported-maximum:differs-from-one-thread:%s" % k, dict(case, team=T, reported_max=mx), {})
+                break
+        sh.evaluations += 1
+        sh.nontrivial += 1
+        sh.states += 1
+        sh.outcomes.add(("team", k))
+    sh.sample({"monitor": "team smaller than the reported maximum (vrt)", "group": group, "kernels": sorted(seen)}, limit=1)
+    return sh
+
+
 def run_shard(desc):
-    return {"asan": _run_asan, "diff": _run_diff, "stray": _run_stray}[desc[0]](desc)
+    return {"asan": _run_asan, "diff": _run_diff, "stray": _run_stray, "team": _run_team}[desc[0]](desc)
 
 
 def replay(case):
